@@ -212,7 +212,9 @@ def make_series(r, stg, rng, npatch, with_bad, subjects=None):
         if with_bad and cls is None and rng.random() < 0.15:
             subj, cls = rng.choice(["subject: with colon", "Date: is the topic", "from: here <to@there>"]), "F14"
         msg = subj + ("\n\n" + body if body else "")
-        name = "p%d" % i
+        # names as users give them: mixed case, digits first, dots, underscores, non-ASCII
+        name = rng.choice(["p%d", "Fix-README-%d", "update-Makefile_v%d", "%d-leading-digit", "dotted.name.%d",
+                           "Ünï-%d", "UPPER%d", "a%d"]) % i
         write_files(r, rng, i)
         p = r.stg(stg, ["new", "--author", "%s <%s>" % (an, ae), "-m", msg, name])
         assert p.returncode == 0, p.stderr
